@@ -144,7 +144,25 @@ def sealed_journal_filter(variant):
     """a filtered keyspace whose original writes still sit in a SEALED journal (> 64 MB of traffic, journal kept alive by a
     lagging second keyspace): once a compaction has replaced/removed items, a reopen must not bring the originals back"""
     from common import run_fjv
-    rule = ["alpha:p61:ff", "alpha:r61", "alpha:p61:ff,r63"][variant]
+    rule = ["alpha:p61:ff", "alpha:r61", "alpha:p61:ff,r63"][variant % 3]
+    if variant >= 3:
+        # the filtered keyspace is only PARTLY flushed when the journal is sealed: a later write of it is still in the memtable
+        L = ["open plain jcomp=none filters=%s" % rule, "ks h0 alpha", "ks h1 beta", "put h1 71 01", "put h0 61 aa", "put h0 63 cc",
+             "put h0 62 bb", "rotate h0", "drain", "major h0", "put h0 65 ee", "bigfill h1 66 1024 t0", "rotate h1", "drain", "info",
+             "get - h0 61", "get - h0 63", "reopen", "ks h0 alpha", "ks h1 beta", "get - h0 61", "get - h0 63", "get - h0 62", "get - h1 71",
+             "reopen", "ks h0 alpha", "get - h0 61", "get - h0 63"]
+        prog = "\n".join(L) + "\n"
+        o, raw, rc = run_fjv(prog, timeout=300)
+        before, after, after2 = (o.get(16), o.get(17)), (o.get(21), o.get(22)), (o.get(27), o.get(28))
+        want61 = {0: "some ff", 1: "none", 2: "some ff"}[variant % 3]
+        want63 = {0: "some cc", 1: "some cc", 2: "none"}[variant % 3]
+        if before != (want61, want63) or "journals=2" not in (o.get(15) or ""):
+            return None
+        if after != before or after2 != before or o.get(23) != "some bb" or o.get(24) != "some 01":
+            return ("items filtered by a compaction (61 -> %s, 63 -> %s), keyspace partly flushed when the journal was sealed: read %s "
+                    "after reopen and %s after a second reopen; unfiltered key 62 = %s, other keyspace 71 = %s"
+                    % (before[0], before[1], after, after2, o.get(23), o.get(24)), prog)
+        return None
     L = ["open plain jcomp=none filters=%s" % rule, "ks h0 alpha", "ks h1 beta", "put h1 71 01", "put h0 61 aa", "put h0 63 cc",
          "put h0 62 bb", "bigfill h0 66 1024 t0", "rotate h0", "drain", "major h0", "info", "get - h0 61", "get - h0 63",
          "reopen", "ks h0 alpha", "ks h1 beta", "get - h0 61", "get - h0 63", "get - h0 62", "get - h1 71",
@@ -165,7 +183,8 @@ def sealed_journal_filter(variant):
 
 
 def run(rep, tier, seed, build):
-    sj = [x for x in [sealed_journal_filter(v) for v in ((seed % 3,) if tier == "quick" else (0, 1, 2))] if x]
+    from common import pmap
+    sj = [x for x in pmap(sealed_journal_filter, (seed % 3, 3 + (seed + 1) % 3) if tier == "quick" else (0, 1, 2, 3, 4, 5), workers=3) if x]
     for msg, prog in sj[:1]:
         rep.violation("# C18: %s\n%s" % (msg, prog))
     n, nops = (240, 45) if tier == "quick" else (5000, 90)
